@@ -36,7 +36,10 @@ KF1 = 'KF-C09-1'
 EXOTIC = '\x0b\x0c\x1c\x1d\x1e\x1f\x85\xa0\u1680\u2000\u2003\u200a\u2028\u2029\u202f\u205f\u3000'
 SHLEX_WS = ' \t\r\n'
 
-ENV = [('X', 'xval'), ('Y', 'y v'), ('S_1', '@[X]@'), ('é', 'q\'"'), ('E', '')]
+LISTS = [('L', ['e1', 'e 2', 'e3']), ('ONE', ['single']), ('NIL', [])]       # list symbols
+LISTS_D = dict(LISTS)
+# the symbol table as strings: a list symbol is rendered with single spaces wherever a string is wanted
+ENV = [('X', 'xval'), ('Y', 'y v'), ('S_1', '@[X]@'), ('é', 'q\'"'), ('E', '')] + [(k, ' '.join(v)) for k, v in LISTS]
 ENV_D = dict(ENV)
 
 
@@ -61,7 +64,7 @@ def env_for(texts):
 
 WORDS = ['a', 'b', 'ab', 'X', 'x1', '_', 'é', 'ü', '²', '→', '#', '\\', '-', '--opt', '-x', '(', ')', '=', '|',
          '&&', '||', '!', ':', '>', '<<', '<<EOF', ':>', '{', '}', '[', ']', '.', '/', '$', '*', '#c', 'a#b', 'EOF', '\\\\']
-REFP = ['@[X]@', '@[Y]@', '@[S_1]@', '@[é]@', '@[E]@', '@[', ']@', '@[X', 'X]@', '@[]@', '@', '[', ']', '@[@[X]@',
+REFP = ['@[L]@', '@[L]@', '@[ONE]@', '@[NIL]@', '@[X]@', '@[Y]@', '@[S_1]@', '@[é]@', '@[E]@', '@[', ']@', '@[X', 'X]@', '@[]@', '@', '[', ']', '@[@[X]@',
         '@[a@[X]@', '@[a-@[Y]@', '@[X]@[Y]@', '@[X]@@[Y]@', '@[X_]@', '@[ X]@']
 RESERVED = ['(', ')', '[', ']', '{', '}', '=', '|', ':', '!', '&&', '||']
 SEPS = [' ', '  ', '\t', ' \t ', '\n', ' \n', '\n ', '\r\n', '\r', ' \n\n ', '\n\n']
@@ -329,6 +332,10 @@ def c_env(env):
     return clist(['(%s, %s)' % (ctext(k), ctext(v)) for k, v in env])
 
 
+def c_lsyms():
+    return clist(['(%s, %s)' % (ctext(k), c_list([ctext(x) for x in v], 'text')) for k, v in LISTS])
+
+
 def env_chars(env):
     return ''.join(k + v for k, v in env)
 
@@ -364,8 +371,16 @@ class Impl:
         from exactly_lib.util.symbol_table import SymbolTable
         self.TokenStream, self.TokenParser = TokenStream, TokenParser
         self.parse_string, self.rich, self.parse_list, self.symbol_syntax = parse_string, parse_rich_string, parse_list, symbol_syntax
-        self.mk_symbols = lambda env: SymbolTable({k: SymbolContainer(string_sdvs.str_constant(v), ValueType.STRING, None)
-                                                   for k, v in env})
+        from exactly_lib.type_val_deps.types.list_ import list_sdvs
+        from exactly_lib.impls.types.program.parse import parse_arguments
+        self.parse_arguments = parse_arguments
+
+        def mk(env):
+            d = {k: SymbolContainer(string_sdvs.str_constant(v), ValueType.STRING, None) for k, v in env if k not in LISTS_D}
+            d.update({k: SymbolContainer(list_sdvs.from_str_constants(v), ValueType.LIST, None) for k, v in LISTS})
+            return SymbolTable(d)
+
+        self.mk_symbols = mk
         self.rich_parser = parse_rich_string.RichStringParser()
 
     def tokens(self, src):
@@ -404,11 +419,14 @@ class Impl:
         except Exception as ex:
             return ('raise', type(ex).__name__)
 
-    def list(self, src, env):
+    def list(self, src, env, is_args=False):
         """('ok', elements, resolved list, position) | ('raise', name)"""
         try:
             ts = self.TokenStream(src)
-            sdv = self.parse_list.parse_list_from_token_parser(self.TokenParser(ts))
+            if is_args:
+                sdv = self.parse_arguments.parser().parse_from_token_parser(self.TokenParser(ts)).arguments_list
+            else:
+                sdv = self.parse_list.parse_list_from_token_parser(self.TokenParser(ts))
             els = []
             for e in sdv.elements:
                 ref = e.symbol_reference_if_is_symbol_reference
@@ -422,7 +440,8 @@ class Impl:
         return [('sym', f.value) if f.is_symbol else ('const', f.value) for f in self.symbol_syntax.split(s)]
 
 
-E2E_ENV = [('X', 'xval'), ('Y', 'y v'), ('S_1', '@[X]@'), ('E', ''), ('X_', '<X_>')]
+E2E_STR = [('X', 'xval'), ('Y', 'y v'), ('S_1', '@[X]@'), ('E', ''), ('X_', '<X_>')]
+E2E_ENV = E2E_STR + [(k, ' '.join(v)) for k, v in LISTS]
 E2E_NEXT = "file g.txt = 'mark'\n"
 E2E_NEXT_ITEMS = [([('N', 'file')], ' '), ([('N', 'g.txt')], ' '), ([('N', '=')], ' '), ([('H', 'mark')], '\n')]
 FILE_ARG_PREFIX = 'f.txt = '
@@ -435,8 +454,36 @@ class E2E:
     def __init__(self, root):
         self.root = root
         self.mp = impl.main_program(root)
-        self.head = '[setup]\n' + ''.join("def string %s = '%s'\n" % (k, v) for k, v in E2E_ENV)
+        self.head = ('[setup]\n' + ''.join("def string %s = '%s'\n" % (k, v) for k, v in E2E_STR) +
+                     ''.join('def list %s = %s\n' % (k, ' '.join("'%s'" % x for x in v)) for k, v in LISTS))
         self.line = 2 + len(E2E_ENV)
+        self.probe = os.path.join(root, 'probe.py')
+        with open(self.probe, 'w') as f:
+            f.write('import sys, json\nsys.stdout.write(json.dumps(sys.argv[1:]))\n')
+
+    def run_args(self, args_src):
+        """argv received by the probe program from `% python probe.py ARG...` in [act] | syntax error | other"""
+        import json as _json
+        d = tempfile.mkdtemp(prefix='case-', dir=self.root)
+        with open(os.path.join(d, 't.case'), 'w', encoding='utf-8', newline='') as f:
+            f.write(self.head + '[act]\n% /venv/bin/python ' + self.probe + args_src + '\n')
+        r = impl.run_main(self.mp, ['--act', 't.case'], d, d)
+        try:
+            if r.exception is not None:
+                return ('other', 'exception ' + type(r.exception).__name__)
+            first = (r.err.splitlines() or [''])[0]
+            if first == 'SYNTAX_ERROR':
+                # the act phase is parsed by the actor: the report names the phase and shows the source line, no line number
+                return ('syntax', 'In [act]\n' in r.err and ('% /venv/bin/python ' + self.probe) in r.err)
+            try:
+                argv = _json.loads(r.out)
+            except ValueError:
+                return ('other', first or ('exit %s' % r.exit_code))
+            if r.exit_code == 0 and isinstance(argv, list) and all(isinstance(x, str) for x in argv):
+                return ('argv', argv)
+            return ('other', first or ('exit %s' % r.exit_code))
+        finally:
+            shutil.rmtree(d, ignore_errors=True)
 
     def run(self, rich_src):
         d = tempfile.mkdtemp(prefix='case-', dir=self.root)
@@ -475,6 +522,10 @@ def gen_e2e(rng):
             t = gen_token(rng)
             if render_tok(t)[0] in '-(' or render_tok(t).startswith('<<') or (t[0][0] == 'N' and chars_tok(t) == ':>'):
                 t = [('H', '')] + t
+            if first_char_splice(t) is not None:
+                # a bare reference to a LIST symbol is not a STRING-SOURCE ("a naked symbol reference (in most places)"): the
+                # manual leaves this place out, the program answers VALIDATION_ERROR; written in soft quotes it is one string
+                t = [('S', chars_tok(t))]
             st = ('plain', [(t, rng.choice(['', ' ', '\t']) + '\n')] + E2E_NEXT_ITEMS, None)
         elif r < 52:
             st = ('plain', [], gen_unterm(rng))
@@ -495,6 +546,53 @@ def gen_e2e(rng):
                 not any(k not in known for k, _ in env_for(texts)[len(ENV):]) and '@[é]@' not in ''.join(texts):
             return st
     return ('eol', ' ', 'a', E2E_NEXT)
+
+
+def gen_args(rng, e2e=False):
+    """program arguments: a list whose elements are ordinary strings (no here-document / :> / path option element)"""
+    known = {k for k, _ in E2E_ENV}
+    for _ in range(300):
+        items, paren, after = gen_list(rng)
+        if e2e:
+            paren, after = None, None
+            items = [i for i in items if i[0] == 'tok']
+        fixed = []
+        for i in items:
+            if i[0] == 'tok':
+                t = i[1]
+                if render_tok(t).startswith('<<') or (t[0][0] == 'N' and chars_tok(t) in (':>', '-existing-file', '-existing-dir',
+                                                                                           '-existing-path')):
+                    t = [('H', '')] + t
+                fixed.append(('tok', t, i[2]))
+            else:
+                fixed.append(i)
+        if fixed and fixed[-1][0] == 'tok' and e2e:
+            t = fixed[-1][1]
+            fixed[-1] = ('tok', [('S', '\\')] if render_tok(t) == '\\' else t, '')
+        l = (fixed, paren, after)
+        src = render_list(l)
+        if e2e:
+            texts = [src] + [chars_tok(i[1]) for i in fixed if i[0] == 'tok']
+            if '\n' in src or '\r' in src or any(k not in known for k, _ in env_for(texts)[len(ENV):]) or '@[é]@' in ''.join(texts):
+                continue
+        return l
+    return ([('tok', [('N', 'a')], '')], None, None)
+
+
+def args_e2e_case(e2e, l):
+    lead = ' '
+    src = lead + render_list(l)
+    obs = e2e.run_args(src)
+    if obs[0] == 'argv':
+        co = '(AObs %s)' % c_list([ctext(x) for x in obs[1]], 'text')
+    elif obs[0] == 'syntax':
+        co = '(ASyntax %s)' % cbool(obs[1])
+    else:
+        co = 'AOther'
+    term = '(CArgs %s %s %s %s (%s, %s) %s)' % (c_oracle(src + env_chars(E2E_ENV)), c_env(E2E_ENV), c_lsyms(), ctext(src),
+                                               ctext(lead), c_slist(l), co)
+    return term, {'kind': 'args-e2e', 'source': src, 'structure': (lead, l), 'observed': obs, 'symbols': E2E_ENV,
+                  'list_symbols': LISTS, 'case_file': e2e.head + '[act]\n% /venv/bin/python PROBE' + src + '\n'}
 
 
 def e2e_case(e2e, st):
@@ -540,21 +638,50 @@ def first_char_rule(t, env_d):
 
 
 def is_mixed(t):
-    hard = [k == 'H' for k, _ in t]
-    return any(hard) and not all(hard)
+    """fragments of at least two different quoting kinds"""
+    return len({k for k, _ in t}) >= 2
+
+
+def first_char_splice(t):
+    """the known defect, for list elements: a token that BEGINS naked and whose characters are one reference to a list
+    symbol is treated as a bare reference (spliced) although quoted fragments are part of it"""
+    s = chars_tok(t)
+    if t[0][0] == 'N' and s.startswith('@[') and s.endswith(']@') and s[2:-2] in LISTS_D and all(is_ident(c) for c in s[2:-2]):
+        return LISTS_D[s[2:-2]]
+    return None
+
+
+def splice_of(t):
+    """the list a written element is replaced by: a naked token that is exactly one reference to a list symbol"""
+    s = chars_tok(t)
+    if all(k == 'N' for k, _ in t) and s.startswith('@[') and s.endswith(']@') and s[2:-2] in LISTS_D \
+            and all(is_ident(c) for c in s[2:-2]):
+        return LISTS_D[s[2:-2]]
+    return None
 
 
 def kf1_applies(tokens, resolved, env):
-    """KF-C09-1: some token mixes hard-quoted and other fragments, and the observed value of every token is either ...
-    the documented one (decided on the Coq side) or exactly what the first-character rule gives"""
-    if len(tokens) != len(resolved):
-        return False
+    """KF-C09-1: some token mixes hard-quoted and other fragments and its observed value is exactly what the
+    first-character rule gives (elements are aligned with the written tokens; a spliced list takes its own elements)"""
     hit = False
     env_d = dict(env)
-    for t, r in zip(tokens, resolved):
-        if is_mixed(t) and r == first_char_rule(t, env_d):
+    i = 0
+    for t in tokens:
+        sp = splice_of(t)
+        if sp is not None:
+            i += len(sp)
+            continue
+        fs = first_char_splice(t) if is_mixed(t) else None
+        if fs is not None and resolved[i:i + len(fs)] == fs:
             hit = True
-    return hit
+            i += len(fs)
+            continue
+        if i >= len(resolved):
+            return False
+        if is_mixed(t) and resolved[i] == first_char_rule(t, env_d):
+            hit = True
+        i += 1
+    return hit and i == len(resolved)
 
 
 # ---------------------------------------------------------------------------------------------
@@ -568,6 +695,8 @@ def gen_tables(ctx):
     from exactly_lib.definitions.primitives import string as string_defs
     from exactly_lib.symbol import symbol_syntax
     from exactly_lib.util.parse import token as token_mod
+    from exactly_lib.util.cli_syntax import option_syntax
+    from exactly_lib.impls.types.program import syntax_elements as pse
     spaces = [c for c in range(sys.maxunicode + 1) if chr(c).isspace()]
     stripped = [c for c in range(sys.maxunicode + 1) if chr(c).strip() == '']
     assert spaces == stripped
@@ -584,16 +713,21 @@ def gen_tables(ctx):
            'Definition gen_here_doc_re : list N := %s.\n'
            'Definition gen_sym_ref_delims : text * text := (%s, %s).\n'
            'Definition gen_quote_chars : N * N := (%s, %s).\n'
-           'Definition gen_alnum_of_delims : list bool := %s.  (* str.isalnum of @ [ ] *)\n\n'
+           'Definition gen_alnum_of_delims : list bool := %s.  (* str.isalnum of @ [ ] *)\n'
+           'Definition gen_arg_path_options : list text := %s.\n\n'
            % (clist([cN(c) for c in spaces]), clist([ctext(w) for w in reserved_words.RESERVED_TOKENS]),
               ctext(list_defs.CONTINUATION_TOKEN), ctext(list_defs.STOP_AT_CHAR), ctext(se.TEXT_UNTIL_EOL_MARKER),
               ctext(string_defs.HERE_DOCUMENT_MARKER_PREFIX), ctext(string_defs.HERE_DOCUMENT_TOKEN_RE.pattern),
               ctext(symbol_syntax.SYMBOL_REFERENCE_BEGIN), ctext(symbol_syntax.SYMBOL_REFERENCE_END),
               cN(ord(token_mod.SOFT_QUOTE_CHAR)), cN(ord(token_mod.HARD_QUOTE_CHAR)),
-              clist([cbool(ch.isalnum()) for ch in '@[]'])))
+              clist([cbool(ch.isalnum()) for ch in '@[]']),
+              clist([ctext(option_syntax.long_option_syntax(o.long)) for o in (pse.EXISTING_FILE_OPTION_NAME, pse.EXISTING_DIR_OPTION_NAME,
+                                                                              pse.EXISTING_PATH_OPTION_NAME)])))
     txt += ('Lemma gen_py_space_matches_model : gen_py_space_chars = py_space_chars.\nProof. vm_compute. reflexivity. Qed.\n'
             'Lemma gen_reserved_matches_model : gen_reserved_tokens = reserved_tokens.\nProof. vm_compute. reflexivity. Qed.\n'
             'Lemma gen_reserved_matches_manual : gen_reserved_tokens = spec_reserved.\nProof. vm_compute. reflexivity. Qed.\n'
+            'Lemma gen_arg_options_match : gen_arg_path_options = existing_path_options /\\ gen_arg_path_options = arg_option_like.\n'
+            'Proof. vm_compute. split; reflexivity. Qed.\n'
             'Lemma gen_constants_match_model :\n'
             '  gen_continuation_token = [BSL] /\\ gen_stop_at = [41] /\\ gen_text_until_eol_marker = [58; 62] /\\\n'
             '  gen_here_doc_prefix = [60; 60] /\\ gen_sym_ref_delims = ([AT; LBR], [RBR; AT]) /\\ gen_quote_chars = (DQ, SQ) /\\\n'
@@ -640,17 +774,18 @@ def parse_case(im, kind, src, st):
     return term, {'kind': 'parse-' + kind, 'source': src, 'structure': st, 'observed': obs, 'symbols': env}
 
 
-def list_case(im, src, st):
+def list_case(im, src, st, is_args=False):
     env = env_for([src] + ([chars_tok(i[1]) for i in st[1][0] if i[0] == 'tok'] if st is not None else []))
-    obs = im.list(src, env)
+    obs = im.list(src, env, is_args)
     if obs[0] == 'ok':
         els = ['(ESym %s)' % ctext(e[1]) if e[0] == 'sym' else '(EStr %s)' % c_fragments(e[1]) for e in obs[1]]
         co = '(LObs %s %s %s)' % (c_list(els, 'element'), c_list([ctext(x) for x in obs[2]], 'text'), cnat(obs[3]))
     else:
         co = '(LExn %s)' % c_exn(obs[1])
     cs = 'None' if st is None else '(Some (%s, %s))' % (ctext(st[0]), c_slist(st[1]))
-    term = '(CList %s %s %s %s %s)' % (c_oracle(src + env_chars(env)), c_env(env), ctext(src), cs, co)
-    return term, {'kind': 'list', 'source': src, 'structure': st, 'observed': obs, 'symbols': env}
+    term = '(CList %s %s %s %s %s %s %s)' % (cbool(is_args), c_oracle(src + env_chars(env)), c_env(env), c_lsyms(), ctext(src), cs, co)
+    return term, {'kind': 'args' if is_args else 'list', 'source': src, 'structure': st, 'observed': obs, 'symbols': env,
+                  'list_symbols': LISTS}
 
 
 def split_case(im, s):
@@ -671,9 +806,12 @@ def finding_of(info):
         return KF1 if kf1_applies([st[1][1][0][0]], [obs[2]], info['symbols']) else None
     if k == 'parse-file' and st[1][0] == 'plain' and st[1][1] and obs[0] == 'file' and obs[2]:
         return KF1 if kf1_applies([st[1][1][0][0]], [obs[1]], info['symbols']) else None
-    if k == 'list':
+    if k in ('list', 'args'):
         toks = [i[1] for i in st[1][0] if i[0] == 'tok']
         return KF1 if kf1_applies(toks, obs[2], info['symbols']) else None
+    if k == 'args-e2e':
+        toks = [i[1] for i in st[1][0] if i[0] == 'tok']
+        return KF1 if obs[0] == 'argv' and kf1_applies(toks, obs[1], info['symbols']) else None
     return None
 
 
@@ -702,7 +840,21 @@ CORPUS_LIST = [
 ]
 
 
+def _arg(kind, text, sep=' '):
+    return ('tok', [(kind, text)], sep)
+
+
+CORPUS_ARGS = [
+    # a soft-quoted reference is ONE string whatever it references; a naked reference to a list is spliced (seeded C09-m4)
+    ([_arg('N', 'first'), _arg('S', '@[L]@'), _arg('N', 'last', '')], None, None),
+    ([_arg('N', '@[L]@'), _arg('S', 'a @[L]@ b'), _arg('H', '@[L]@'), _arg('S', '@[X]@'), _arg('N', '@[X]@'), _arg('N', 'x@[L]@'),
+      _arg('S', '@[NIL]@'), _arg('N', '@[NIL]@'), _arg('S', '@[ONE]@'), _arg('S', '', '')], None, None),
+    ([_arg('N', 'a'), _arg('N', '\\'), _arg('N', 'b'), _arg('H', 'c d', '')], None, None),
+    ([_arg('N', 'a#b'), _arg('N', '#'), _arg('N', '-x', '')], None, None),
+]
 CORPUS_E2E = [
+    ('plain', [([('S', '@[L]@')], '\n')] + E2E_NEXT_ITEMS, None),                                  # seeded C09-m4: one string
+    ('plain', [([('S', 'a @[L]@ b@[NIL]@')], '\n')] + E2E_NEXT_ITEMS, None),
     ('plain', [([('N', 'a#b')], '\n')] + E2E_NEXT_ITEMS, None),                                   # Appendix A4 (repaired)
     ('plain', [([('S', 'A'), ('H', '@[X]@')], '\n')] + E2E_NEXT_ITEMS, None),                      # Appendix A5: KF-C09-1
     ('here', 'EOF', '', ['abc', '\xa0'], ('end', E2E_NEXT)),                                     # FIX-C09-2 repro t1
@@ -772,6 +924,14 @@ def run(ctx, res):
         add(list_case(im, src, (lead, l)), ('list', src) if nt else None)
     for _ in range(n_psoup // 2):
         add(list_case(im, gen_soup(rng), None), None)
+    # program arguments at parser level
+    for j in range(len(CORPUS_ARGS) + n_list // 2):
+        if j < len(CORPUS_ARGS):
+            lead, l = ' ', CORPUS_ARGS[j]
+        else:
+            lead, l = rng.choice(['', ' ', '\t ']), gen_args(rng)
+        src = lead + render_list(l)
+        add(list_case(im, src, (lead, l), is_args=True), ('args', src) if len(l[0]) >= 2 else None)
     # split
     for _ in range(n_split):
         s = ''.join(rng.choice(REFP if rng.chance(0.6) else WORDS + [' ']) for _ in range(rng.randint(0, 6)))
@@ -784,6 +944,10 @@ def run(ctx, res):
         for st in CORPUS_E2E + [gen_e2e(rng) for _ in range(n_e2e)]:
             add(e2e_case(e2e, st), ('e2e', render_rich(st)))
             res.count('end to end: ' + st[0])
+        for l in CORPUS_ARGS + [gen_args(rng, e2e=True) for _ in range(n_e2e)]:
+            if any(i[0] != 'tok' for i in l[0]) or l[1] is not None or l[2] is not None:
+                l = ([i for i in l[0] if i[0] == 'tok'], None, None)
+            add(args_e2e_case(e2e, l), ('args-e2e', render_list(l)))
     finally:
         shutil.rmtree(root, ignore_errors=True)
 
@@ -791,7 +955,9 @@ def run(ctx, res):
     res.rule = ('structures (1-4 fragments per token, naked/soft/hard in every order; separators space, tab, CR, LF; reserved words, '
                 'option-like words, #, backslash, <<, :>, non-ASCII incl. alphanumeric non-ASCII and Unicode white space; '
                 'symbol-reference pieces @[ ]@ @[X]@ and near-misses; unterminated quotes; here-documents whose lines resemble '
-                'markers, headers, comments; lists with continuation lines and a stopping parenthesis) rendered to text, plus '
+                'markers, headers, comments; lists and program arguments with continuation lines and a stopping parenthesis; string AND '
+                'list symbols referenced naked, soft-quoted alone / with surrounding text, hard-quoted; end to end: contents of '
+                '`file f = ...` and argv of a probe program) rendered to text, plus '
                 'unstructured character soup. non-trivial := token with >= 2 differently quoted fragments / unterminated quote '
                 '/ symbol-reference syntax present / :> or here-document form / list with >= 2 items / text with >= 2 "@["; '
                 'distinct := distinct source text per parser')
@@ -801,27 +967,110 @@ def run(ctx, res):
     res.samples = [{k: v for k, v in cases[i][1].items() if k in ('kind', 'source', 'observed', 'tokens', 'end')}
                    for i in (len(CORPUS_TOK) + 3, len(CORPUS_TOK) + n_tok + n_soup + 2,
                              len(CORPUS_TOK) + n_tok + n_soup + len(CORPUS_PARSE) + n_str + 5) if i < len(cases)]
-    cb, pb, errs = common.run_shards('C09', ['Model.Tok', 'Spec.C09'], 'check_case', [c[0] for c in cases])
+    evaluate(cases, res)
+
+
+def evaluate(cases, res, tag='cases'):
+    cb, pb, errs = common.run_shards('C09', ['Model.Tok', 'Spec.C09'], 'check_case', [c[0] for c in cases], tag=tag)
     res.errors += errs
     for i in pb:
         info = cases[i][1]
         res.prop_failures.append(Failure('property', info,
-                                         'the observed tokens / value / position differ from what the documented syntax gives '
-                                         'for the structure the source was written from', finding=finding_of(info)))
+                                         'the observed tokens / value / elements / position differ from what the documented syntax '
+                                         'gives for the structure the source was written from', finding=finding_of(info)))
     for i in cb:
         info = cases[i][1]
         res.disagreements.append(Failure('correspondence', info, 'model (Model/Tok.v) differs from the implementation, or the '
                                                                  'harness rendering differs from the Coq rendering / is not well-formed'))
 
 
+def _tokens_of(info):
+    st = info.get('structure')
+    if not st:
+        return []
+    k = info['kind']
+    if k == 'tokens':
+        return [t for t, _ in st[1]]
+    if k in ('list', 'args', 'args-e2e'):
+        return [i[1] for i in st[1][0] if i[0] == 'tok']
+    if k.startswith('parse-') and st[1][0] == 'plain':
+        return [t for t, _ in st[1][1]]
+    return []
+
+
+def _variants(t):
+    """the token, the token with its references redirected to list / string symbols, its fragments alone in every quoting"""
+    import re
+    out = [t]
+    for name in ('L', 'ONE', 'NIL', 'X'):
+        out.append([(k, re.sub(r'@\[[^\]@\s\'"]*\]@', '@[%s]@' % name, x)) for k, x in t])
+    for k, x in t:
+        for k2 in 'NSH':
+            y = x
+            if k2 == 'N':
+                y = ''.join(c for c in x if not c.isspace() and c not in '\'"')
+                if not y:
+                    continue
+            elif k2 == 'S':
+                y = x.replace('"', '')
+            else:
+                y = x.replace("'", '')
+            out.append([(k2, y)])
+    seen, res_ = set(), []
+    for v in out:
+        key = repr(v)
+        if key not in seen and render_tok(v):
+            seen.add(key)
+            res_.append(v)
+    return res_
+
+
 def search(ctx, res):
-    """failing-input search (a proof obligation or the correspondence broke, no property failure seen yet): the thorough
-    generator with a fresh stream; returns the property failures it finds"""
+    """failing-input search (a proof obligation or the correspondence broke, no property failure seen yet).
+    1. concentrated: the tokens of the disagreeing inputs and their variants, put through every parser and both
+       end-to-end forms (file contents, argv of a probe program);  2. the thorough generator with a fresh stream."""
+    im = Impl()
+    toks = []
+    for f in res.disagreements[:60]:
+        for t in _tokens_of(f.case):
+            toks += _variants(t)
+    toks = toks[:400]
+    cases = []
+    if toks:
+        root = tempfile.mkdtemp(prefix='search-', dir=ctx.work)
+        try:
+            e2e = E2E(root)
+            known = {k for k, _ in E2E_ENV}
+            for t in toks:
+                src = render_tok(t)
+                plain_ok = not (src.startswith('<<') or (t[0][0] == 'N' and chars_tok(t) in (':>', '-existing-file', '-existing-dir',
+                                                                                          '-existing-path')))
+                single = ([('tok', [('S', '\\')] if src == '\\' else ([('S', ')')] if (t[0][0] == 'N' and chars_tok(t) == ')') else t), '')],
+                          None, None)
+                cases.append(list_case(im, ' ' + render_list(single), (' ', single)) + (None,))
+                cases.append(parse_case(im, 'string', src, ('', ('plain', [(t, '')], None))) + (None,))
+                if plain_ok:
+                    cases.append(list_case(im, ' ' + render_list(single), (' ', single), is_args=True) + (None,))
+                    cases.append(parse_case(im, 'rich', src, ('', ('plain', [(t, '')], None))) + (None,))
+                    names_ok = not any(k not in known for k, _ in env_for([src, chars_tok(t)])[len(ENV):]) and '@[é]@' not in chars_tok(t)
+                    if names_ok and '\n' not in src and '\r' not in src:
+                        cases.append(args_e2e_case(e2e, single) + (None,))
+                        if src[0] not in '-(' and first_char_splice(t) is None:
+                            cases.append(e2e_case(e2e, ('plain', [(t, '\n')] + E2E_NEXT_ITEMS, None)) + (None,))
+        finally:
+            shutil.rmtree(root, ignore_errors=True)
+    r1 = common.Result()
+    if cases:
+        evaluate(cases, r1, tag='search')
+    res.extra['failing_input_search'] = {'concentrated_cases': len(cases), 'concentrated_property_failures': len(r1.prop_failures)}
+    open_ids = {f['id'] for f in common.load_known_findings('C09') if f.get('status') == 'open'}
+    if any(f.finding not in open_ids for f in r1.prop_failures):
+        return r1.prop_failures
     ctx2 = common.Ctx(ctx.prop, 'thorough', ctx.seed + 1)
     r2 = common.Result()
     run(ctx2, r2)
-    res.extra['failing_input_search'] = {'evaluations': r2.evaluations, 'property_failures': len(r2.prop_failures)}
-    return r2.prop_failures
+    res.extra['failing_input_search'].update({'thorough_evaluations': r2.evaluations, 'thorough_property_failures': len(r2.prop_failures)})
+    return r1.prop_failures + r2.prop_failures
 
 
 def replay(ctx, payload):
@@ -831,6 +1080,6 @@ def replay(ctx, payload):
         im = Impl()
         k = case['kind']
         src = case['source']
-        print('implementation now:', im.tokens(src) if k == 'tokens' else im.list(src, case.get('symbols', ENV)) if k == 'list'
-              else ('end to end: run the case_file with exactly' if k == 'parse-file' else im.parse(k.split('-')[1], src, case.get('symbols', ENV))))
+        print('implementation now:', im.tokens(src) if k == 'tokens' else im.list(src, case.get('symbols', ENV), k == 'args') if k in ('list', 'args')
+              else ('end to end: run the case_file with exactly' if k in ('parse-file', 'args-e2e') else im.parse(k.split('-')[1], src, case.get('symbols', ENV))))
     return 0
